@@ -243,6 +243,65 @@ func init() {
 				}
 			}
 		}
+		// ---- (b2) systematic single-field ROOT mismatches for 2..4 roots ---------------------------
+		// The file's roots are distinct dag-pb / sha2-256 CIDv1s (so each has a CIDv0 and a raw-codec
+		// twin with the same multihash).  Per root count: same multihash under another codec, CIDv0
+		// vs CIDv1 of the same multihash (both directions), one root duplicated vs distinct (both
+		// directions), one root replaced by a fresh CID, and permutations (not a mismatch: accepted).
+		for n := 2; n <= 4; n++ {
+			r := c.R.Fork()
+			o := defaultWOpts
+			if n == 3 {
+				o.dpad, o.ipad = 7, 1
+			}
+			var blks []Blk
+			var roots []cid.Cid
+			for j := 0; j < n; j++ {
+				d := r.Bytes(6 + j)
+				b := Blk{mkCid(1, 0x70, mh.SHA2_256, -1, d), d}
+				blks = append(blks, b)
+				roots = append(roots, b.Cid)
+			}
+			puts := blks[:1+r.Intn(n)]
+			fresh := mkCid(1, 0x70, mh.SHA2_256, -1, r.Bytes(9))
+			with := func(base []cid.Cid, i int, c2 cid.Cid) []cid.Cid {
+				out := append([]cid.Cid{}, base...)
+				out[i] = c2
+				return out
+			}
+			rawTwin := func(c1 cid.Cid) cid.Cid { return cid.NewCidV1(0x55, c1.Hash()) }
+			v0Twin := func(c1 cid.Cid) cid.Cid { return cid.NewCidV0(c1.Hash()) }
+			type variant struct {
+				file, req []cid.Cid
+				what      string
+			}
+			var vs []variant
+			for _, i := range []int{0, n - 1} {
+				j := (i + 1) % n
+				vs = append(vs,
+					variant{roots, with(roots, i, rawTwin(roots[i])), "roots-same-multihash-other-codec"},
+					variant{roots, with(roots, i, v0Twin(roots[i])), "roots-cidv0-for-cidv1"},
+					variant{with(roots, i, v0Twin(roots[i])), roots, "roots-cidv1-for-cidv0"},
+					variant{roots, with(roots, i, roots[j]), "roots-duplicated-for-distinct"},
+					variant{with(roots, i, roots[j]), roots, "roots-distinct-for-duplicated"},
+					variant{roots, with(roots, i, fresh), "roots-one-replaced"},
+				)
+			}
+			rot := append(append([]cid.Cid{}, roots[1:]...), roots[0])
+			rev := make([]cid.Cid, n)
+			for i := range roots {
+				rev[n-1-i] = roots[i]
+			}
+			vs = append(vs, variant{roots, rot, "roots-permuted"}, variant{roots, rev, "roots-permuted"},
+				variant{with(roots, 0, roots[1]), with(rot, n-1, roots[1]), "roots-permuted-with-duplicate"})
+			for _, v := range vs {
+				for _, kind := range []uint64{0, 1} {
+					for _, cut := range []string{"discard", "finalize"} {
+						c12EmitMismatch(c, kind, o, v.file, puts, cut, o, v.req, v.what)
+					}
+				}
+			}
+		}
 		// adversarial: block data = a framed CARv1 header with the session's roots, so that the
 		// bytes at the offset implied by another padding parse as a matching header
 		for i := 0; i < 1+2*c.Scale; i++ {
